@@ -627,6 +627,7 @@ def applyOp (s : State) (op : String) : Option State :=
   | ["n", n, a] => do pure (s.declare (← decChars n) (a.contains 'x') (a.contains 'r'))
   | ["a", n, vs, a] => do pure (s.setArray (← decChars n) (← decHexList vs) (a.contains 'x') (a.contains 'r'))
   | ["aq", n, vs, a] => do pure (s.setArray (← decChars n) (← decHexList vs) (a.contains 'x') (a.contains 'r'))
+  | ["aQ", n, vs, a] => do pure (s.setArray (← decChars n) (← decHexList vs) (a.contains 'x') (a.contains 'r'))
   | ["e", n, v] => do
     let name ← decChars n
     if name.contains '=' then pure (s.setScalar name (← decChars v) false false) else none
